@@ -613,10 +613,38 @@ func (e *Engine) mergeStates(sts []*State) *State {
 // mergeObj: c ? o : mo
 func (e *Engine) mergeObj(c *Term, o, mo *Obj, stamp int) *Obj {
 	oc, mc := o.cells, mo.cells
+	if o.kind == kindIter && len(oc) > 0 && len(mc) > 0 && oc[0] != mc[0] {
+		unsup("merging iterators at different positions")
+	}
 	if len(oc) != len(mc) {
-		// maps with different key sets (and every other object of differing size) are not merged: the paths
-		// stay apart, so that a key is present or absent, never "present under a guard" because of a join
-		unsup("merging objects of different sizes (kind %d: %d vs %d)", o.kind, len(oc), len(mc))
+		switch o.kind {
+		case kindMap:
+			pad := func(short, long []Value) []Value {
+				r := append([]Value(nil), short...)
+				for k := len(short); k < len(long); k++ {
+					en := long[k].(StructV)
+					r = append(r, StructV{[]Value{en.f[0], en.f[1], e.False}})
+				}
+				return r
+			}
+			// entries are appended in the same order on both sides only if the shared prefix agrees; check keys
+			n := len(oc)
+			if len(mc) < n {
+				n = len(mc)
+			}
+			for k := 0; k < n; k++ {
+				if !e.identical(oc[k].(StructV).f[0], mc[k].(StructV).f[0]) {
+					unsup("merging maps with diverging key order")
+				}
+			}
+			if len(oc) < len(mc) {
+				oc = pad(oc, mc)
+			} else {
+				mc = pad(mc, oc)
+			}
+		default:
+			unsup("merging objects of different sizes (kind %d: %d vs %d)", o.kind, len(oc), len(mc))
+		}
 	} else if o.kind == kindMap {
 		for k := range oc {
 			if !e.identical(oc[k].(StructV).f[0], mc[k].(StructV).f[0]) {
